@@ -91,7 +91,7 @@ def sweep(prop):
 if __name__ == "__main__":
     props = [a.upper() for a in sys.argv[1:]] or [c["property_id"] for c in json.load(open(os.path.join(HERE, "MANIFEST.json")))["checks"]]
     bad = 0
-    with cf.ProcessPoolExecutor(max_workers=14) as ex:
+    with cf.ProcessPoolExecutor(max_workers=10) as ex:
         for prop, n, res in ex.map(sweep, props):
             print("%s: %d renames tried, %d alarms" % (prop, n, len(res)))
             for site, name, what in res:
